@@ -412,6 +412,13 @@ def run_oracles(si, sm, viol, cover):
                     x = int(num) * 4096 // int(den or 1)
                     if x >= 0 and d1 != d0 + x:
                         viol("C10", None, "adjust_debt(%s) moved a positive debt from %d to %d (/4096)" % (o[2], d0, d1), k)
+                    # an explicit negative adjustment pays debt exactly (non-negative work factors: credits >= 0)
+                    Pa = pac.get(a)
+                    if x < 0 and int(num) * 4096 % int(den or 1) == 0 and Pa is not None and min(Pa["mark"], Pa["trace"], Pa["keep"], Pa["drop"], Pa["free"]) >= 0:
+                        want = max(d0 + x, 0)
+                        if d1 != want:
+                            viol("C10", None, "adjust_debt(%s) moved a positive debt from %d to %d (/4096), expected %d: an explicit "
+                                              "adjustment is not applied exactly" % (o[2], d0, d1, want), k)
                 if o[0] == "m" and d0 is not None and d1 is not None and d1 < d0 and pre["m"].split(",")[0] != "0":
                     # only first-marking forward barriers / resurrect may pay debt inside a callback (F4)
                     m0, m1 = pre["m"].split(","), post["m"].split(",")
@@ -585,6 +592,9 @@ def run_oracles(si, sm, viol, cover):
         elif "unexpected panic" in al:
             viol("C06", None, al, len(si["lines"]) - 1)
             viol("C10", None, al, len(si["lines"]) - 1)
+            if "is_live" in al:
+                # the collector met a destructed value while tracing: a destructed object is strongly reachable
+                viol("C01", None, al + " (a destructed object is reachable: the collector traced it)", len(si["lines"]) - 1)
         elif "DynamicRootSet" in al:
             viol("C14", None, al, len(si["lines"]) - 1)
             if "ANOTHER arena" in al:
